@@ -304,6 +304,50 @@ def _same_error(repo, rep):
               where=(L.where(stores[0][0], stores[0][1]) if stores else ""),
               detail="; ".join("%s: %s" % (f.qualname, t)
                                for f, ln, t in stores[:3]))
+    # (a') the only thing _cook's handler does to a compile-time error is
+    # stamping the file name on its token; it builds no new token and does
+    # not replace the exception's arguments
+    ck = repo.func("chameleon.template.BaseTemplate._cook")
+    hs = [h for n in ast.walk(ck.node) if isinstance(n, ast.Try)
+          for h in n.handlers if h.type is not None
+          and "TemplateError" in src(h.type)]
+    okh = len(hs) == 1
+    detail = ""
+    if okh:
+        for st in hs[0].body:
+            t = src(st).replace(" ", "")
+            if isinstance(st, ast.Raise) and st.exc is None:
+                continue
+            if isinstance(st, ast.Assign) and len(st.targets) == 1 and \
+                    src(st.targets[0]).endswith(".token.filename"):
+                continue
+            okh = False
+            detail = src(st)[:120]
+    rep.check(okh, "R19.5", ck.qualname, "the compile-error handler only "
+              "stamps the file name on the error's token and re-raises (the "
+              "token, its source and its position stay the compiler's)",
+              construct="cook-handler-shape", where=L.where(ck),
+              detail=detail)
+    # (a'') 'strict' given to a loader reaches the templates it creates:
+    # the keyword options are stored as given and passed on unfiltered
+    ld = repo.func("chameleon.loader.TemplateLoader.__init__")
+    kw = ld.node.args.kwarg.arg if ld.node.args.kwarg else None
+    stored = [n for n in ast.walk(ld.node) if isinstance(n, ast.Assign)
+              and src(n.targets[0]) == "self.kwargs"]
+    rep.check(kw is not None and len(stored) == 1 and
+              src(stored[0].value) == kw, "R19.5", ld.qualname, "the "
+              "loader keeps its keyword options exactly as given (a False or "
+              "None value, e.g. strict=False, is an option too)",
+              construct="loader-kwargs-stored", where=L.where(ld),
+              detail=src(stored[0])[:120] if stored else "")
+    lo = repo.func("chameleon.loader.TemplateLoader.load")
+    calls = [n for n in ast.walk(lo.node) if isinstance(n, ast.Call)
+             and src(n.func) == "cls"]
+    rep.check(bool(calls) and all(any(
+        k.arg is None and src(k.value) == "self.kwargs" for k in c.keywords)
+        for c in calls), "R19.5", lo.qualname, "every template the loader "
+        "creates receives those options (**self.kwargs)",
+        construct="loader-kwargs-passed", where=L.where(lo))
     # (b) raised iff reached: the deferred error must not be one that the
     # pipe operator / exists: swallow
     ee = repo.cls("chameleon.exc.ExpressionError")
